@@ -1189,8 +1189,14 @@ class ElectrumX(SessionBase):
                 if (utxo.tx_hash, utxo.tx_pos) not in spends]
 
     async def hashX_subscribe(self, hashX, alias):
-        # Store the subscription only after address_status succeeds
-        result = await self.address_status(hashX)
+        # Store the subscription only after address_status succeeds.  Sessions are not
+        # notified about a hashX until it is stored, so recalculate the status if sessions
+        # were notified in the meantime; otherwise a change could be lost.
+        while True:
+            notify_count = self.session_mgr.notify_count
+            result = await self.address_status(hashX)
+            if notify_count == self.session_mgr.notify_count:
+                break
         self.hashX_subs[hashX] = alias
         return result
 
